@@ -84,6 +84,11 @@ def _exec_repr(ex):
         return "-"
     if isinstance(ex, Executor):
         return "live"
+    if isinstance(ex, tuple) and len(ex) == 3 and callable(ex[0]):
+        # instructions: WHO is asked (class or provider function, by qualified name — no addresses), with what
+        f = ex[0]
+        return "i:" + f"{getattr(f, '__module__', '?')}.{getattr(f, '__qualname__', repr(f))}" + repr(ex[1]) + repr(
+            sorted(ex[2].items()) if isinstance(ex[2], dict) else ex[2])
     return "i:" + repr(ex)
 
 
@@ -685,12 +690,16 @@ def _rerun(node, how):
             except Exception as e:  # noqa: BLE001
                 steps.append({"res": "set:" + type(e).__name__})
             continue
+        from . import nodes_c07 as N
+
         k0 = len(nodes.CALL_LOG)
+        s0 = len(N.SUBMITS)
         res = _run(node)
         _settle(node)
         calls = [repr(c) for c in nodes.CALL_LOG[k0:]]
         s = snap(node)
-        steps.append({"res": res, "calls": calls, "state": _rerun_view(s)})
+        steps.append({"res": res, "calls": calls, "state": _rerun_view(s),
+                      "submits": [list(x) for x in N.SUBMITS[s0:]]})
     return steps
 
 
@@ -1167,6 +1176,10 @@ def oracle(case, impl):
                 sc = dict(sc, state=[x[:5] + [sorted(x[5])] for x in sc.get("state", [])])
             if calls_o != calls_c:
                 return [_fail("rerun-execution-order", f"step {k}: calls {calls_o} vs {calls_c}", cause=cause)]
+            if sorted(map(tuple, so.get("submits", []))) != sorted(map(tuple, sc.get("submits", []))):
+                # where the work is sent: which executor (by its instructions) gets whose job
+                return [_fail("rerun-submissions", f"step {k}: jobs submitted {so.get('submits')} vs "
+                                                   f"{sc.get('submits')}", cause=cause)]
             if so.get("state") != sc.get("state"):
                 d = next(((x, y) for x, y in zip(so["state"], sc["state"]) if x != y), None)
                 return [_fail("rerun-outputs", f"step {k}: {d}", cause=cause)]
@@ -1220,7 +1233,8 @@ def _gen_graph(rng, depth, opts, in_macro_args=None):
         if rng.random() < 0.08 and k == "F":
             cs["nocache"] = True
         if opts.get("ctl") and k in ("F", "M1", "M2", "M3") and rng.random() < 0.55:
-            cs["exec"] = rng.choice(["ctl", "ctl", "ctli"])
+            cs["exec"] = rng.choice(["ctl", "ctl", "ctli", "ctlik", "ctlp", "ctlp", "ctlpk"])
+            cs["exec_name"] = rng.choice(["p", "p", "q"])
         elif rng.random() < opts.get("p_exec", 0.0) and k == "F" and not opts.get("has_executor"):
             cs["exec"] = "instr"
             opts["has_executor"] = True
@@ -1760,6 +1774,26 @@ def corpus():
         "children": [_leafF("a", 1)], "data": [["a", "a", ["arg", "x"]]], "returns": [["a", "o"]]}},
         "state": "fresh", "mode": "corpus", "backend": "pickle", "rounds": 1, "target": [], "fail": [],
         "edits": [["setval", [], "a", "a", "direct"]], "rerun": ["run"]}
+    # every form of executor instructions `_parse_executor` accepts — by class, by class with arguments, by provider
+    # function with positional / keyword arguments — on a top-level child, inside nested macros, on a macro itself and
+    # on a lone child; every back end; both copies run again: the same jobs go to the same executors
+    inner_x = {"children": [dict(_leafF("a", 1), exec="ctlp", exec_name="in"), dict(_leafF("b", 2), exec="ctlik")],
+               "data": [["a", "a", ["arg", "x"]], ["b", "a", ["child", "a", "o"]]], "returns": [["b", "o"]]}
+    outer_x = {"children": [dict(_leafF("pre", 3), exec="ctlpk", exec_name="in"),
+                            {"label": "inner", "kind": "M1", "const": {}, "spec": inner_x, "exec": "ctlp",
+                             "exec_name": "mac"}],
+               "data": [["pre", "a", ["arg", "x"]], ["inner", "x", ["child", "pre", "o"]]], "returns": [["inner", "out"]]}
+    gx = {"kind": "wf", "label": "w", "spec": {"children": [
+        dict(_leafF("top", 4, a=1), exec="ctlp", exec_name="top"),
+        {"label": "outer", "kind": "M1", "const": {}, "spec": outer_x},
+        dict(_leafF("last", 5), exec="ctli")],
+        "data": [["outer", "x", ["child", "top", "o"]], ["last", "a", ["child", "outer", "out"]]]}}
+    for be in ("pickle", "cloudpickle", "file"):
+        yield {"root": gx, "state": "fresh", "ctl": True, "schedule": [0, 1, 0, 2, 0, 1, 0, 0], "backend": be,
+               "rounds": 2, "target": [], "fail": [], "has_executor": True, "rerun": ["run"], "rerun_eq_cache": True,
+               "mode": "corpus"}
+        yield {"root": gx, "state": "run", "ctl": True, "schedule": [0, 0, 1, 0, 0, 0], "backend": be, "rounds": 2,
+               "target": ["outer", "inner", "a"], "fail": [], "has_executor": True, "mode": "corpus"}
     # a child on its own, nested, all three back ends
     for be in ("pickle", "cloudpickle", "file"):
         yield {"root": m1, "state": "run", "backend": be, "rounds": 2, "target": ["m", "c"], "fail": [], "mode": "corpus"}
